@@ -38,3 +38,31 @@ static_assert(sizeof(d::mutex_storage<std::mutex>) >= sizeof(std::mutex), "mutex
 static_assert(std::is_same<mem::thread_safe_allocator<mem::memory_pool<>>, mem::allocator_storage<mem::direct_storage<mem::memory_pool<>>, std::mutex>>::value, "thread_safe_allocator is allocator_storage with std::mutex");
 // a thread_safe_allocator is itself thread safe only through its mutex: it stays stateful
 static_assert(mem::allocator_traits<mem::thread_safe_allocator<mem::memory_pool<>>>::is_stateful::value, "wrapper stays stateful");
+
+// wrappers with any stateful component keep the mutex, whatever they wrap
+#define KEEPS(...) static_assert(std::is_same<d::mutex_for<__VA_ARGS__, std::mutex>, std::mutex>::value, "stateful allocator loses its mutex: " #__VA_ARGS__)
+KEEPS(mem::tracked_allocator<counting_tracker, mem::heap_allocator>);
+KEEPS(mem::tracked_allocator<counting_tracker, mem::malloc_allocator>);
+KEEPS(mem::tracked_allocator<counting_tracker, stateless_allocator>);
+KEEPS(mem::tracked_allocator<counting_tracker, mem::memory_pool<>>);
+KEEPS(mem::tracked_allocator<tracker, mem::memory_stack<>>);
+KEEPS(mem::aligned_allocator<mem::heap_allocator>);
+KEEPS(mem::fallback_allocator<mem::heap_allocator, mem::memory_pool<>>);
+KEEPS(mem::fallback_allocator<mem::static_allocator, mem::heap_allocator>);
+KEEPS(mem::binary_segregator<mem::threshold_segregatable<mem::memory_pool<>>, mem::heap_allocator>);
+KEEPS(mem::memory_resource_allocator);
+KEEPS(mem::memory_pool<mem::small_node_pool>);
+KEEPS(mem::memory_pool_collection<mem::array_pool, mem::identity_buckets>);
+KEEPS(mem::iteration_allocator<3>);
+KEEPS(mem::deeply_tracked_allocator<counting_tracker, mem::memory_pool<>>);
+// generic: whoever is stateful by the traits keeps the mutex (the one documented exception is joint_allocator)
+#define STATEFUL_KEEPS(...) static_assert(!mem::allocator_traits<__VA_ARGS__>::is_stateful::value || std::is_same<d::mutex_for<__VA_ARGS__, user_mutex>, user_mutex>::value, "stateful by its traits but gets no_mutex: " #__VA_ARGS__)
+STATEFUL_KEEPS(mem::tracked_allocator<counting_tracker, mem::heap_allocator>);
+STATEFUL_KEEPS(mem::tracked_allocator<tracker, mem::heap_allocator>);
+STATEFUL_KEEPS(mem::aligned_allocator<mem::new_allocator>);
+STATEFUL_KEEPS(mem::fallback_allocator<mem::heap_allocator, mem::malloc_allocator>);
+STATEFUL_KEEPS(mem::std_allocator<int, mem::memory_pool<>>);
+STATEFUL_KEEPS(mem::allocator_reference<mem::memory_pool<>>);
+STATEFUL_KEEPS(mem::any_allocator_reference);
+static_assert(mem::allocator_traits<mem::tracked_allocator<counting_tracker, mem::heap_allocator>>::is_stateful::value, "a stateful tracker makes the tracked allocator stateful");
+static_assert(std::is_same<d::mutex_for<mem::joint_allocator, std::mutex>, mem::no_mutex>::value, "joint_allocator is documented as thread safe as-is (one object, one owner)");
